@@ -117,13 +117,8 @@ pub fn classify_number(v: &[u8]) -> Num {
         // digits only
         let s = std::str::from_utf8(v).unwrap();
         return match s.parse::<u64>() {
-            Ok(n) => {
-                if v.len() > 1 && v[0] == b'0' {
-                    Num::Unclear(Some(n))
-                } else {
-                    Num::Numeric(n)
-                }
-            }
+            // digits only and within range: an ASCII decimal u64, zero padded or not
+            Ok(n) => Num::Numeric(n),
             Err(_) => {
                 // too many digits: overflow unless it is zero padding
                 let trimmed: &[u8] = {
@@ -134,7 +129,8 @@ pub fn classify_number(v: &[u8]) -> Num {
                     &v[i..]
                 };
                 match std::str::from_utf8(trimmed).unwrap().parse::<u64>() {
-                    Ok(n) => Num::Unclear(Some(n)),
+                    // more than 20 characters, but only because of zero padding
+                    Ok(n) => Num::Numeric(n),
                     Err(_) => Num::NonNumeric,
                 }
             }
